@@ -349,6 +349,8 @@ fn build(c: &Value) -> Option<Built> {
         _ => "",
     };
     let prop_schema = match site {
+        // as the key schema of a map (no `type`: a key is a string anyway)
+        "mapkey" => json!({"type": "object", "propertyNames": {"x-rust-type": ann["x-rust-type"].clone()}, "additionalProperties": {"type": "integer"}}),
         "property" => ann.clone(),
         "item" => json!({"type": "array", "items": ann.clone()}),
         _ => {
@@ -478,6 +480,14 @@ impl Property for C13 {
                 }
             }
         }
+        // the annotated schema as a map's key schema
+        for p in 0..4 {
+            for r in renames {
+                for (cfg, u, want) in [("*", "Generate", None), ("absent", "Allow", None), ("absent", "Generate", None), ("absent", "Deny", None), ("!", "Allow", None), ("1.2.3", "Deny", Some(true)), ("1.2.2", "Allow", Some(false))] {
+                    out.push(cell("my-crate", "1.2.3", cfg, r, u, p, "mapkey", "none", want));
+                }
+            }
+        }
         // malformed extensions: never substituted, always generated
         for m in ["bad-req", "bad-req-op", "path-other-crate", "path-prefix-sharing", "path-prefix-of-crate", "path-no-sep", "missing-version", "missing-path", "missing-crate", "version-number", "not-an-object", "parameters-object"] {
             for cfg in ["absent", "*", "!", "1.2.3"] {
@@ -523,6 +533,27 @@ impl Property for C13 {
         let site = cell_v["site"].as_str().unwrap_or("");
         let all = ingest::all_facts(&ing.space);
         let mut via_newtype = false;
+        if site == "mapkey" {
+            // Map<K, i64>: the key type is what is observed; the schema's own structure plays no part
+            let key = observed.find('<').and_then(|i| observed[i + 1..].strip_suffix(",i64>").map(|k| k.to_string()));
+            let mut sink = vec![];
+            let _ = render_checked(&ing, &mut sink);
+            unit.violations.extend(sink);
+            match key {
+                Some(k) if b.substitute => {
+                    if k != b.expected_path {
+                        unit.violations.push(Violation::new("substitution-expected", format!("cell {}: expected the map key to be typed {} but the API says {}", cell_v, b.expected_path, p.type_ident)));
+                    }
+                }
+                Some(k) => {
+                    if k.starts_with("::") && k.contains("::Thing") {
+                        unit.violations.push(Violation::new("substitution-unexpected", format!("cell {}: the key schema must be generated, but the API types the map as {}", cell_v, p.type_ident)));
+                    }
+                }
+                None => unit.violations.push(Violation::new("observe-failed", format!("cell {}: map-typed property reported as {}", cell_v, p.type_ident))),
+            }
+            return unit;
+        }
         if site == "item" {
             // Vec<T>
             if let Some(inner) = observed.strip_prefix("::std::vec::Vec<").and_then(|s| s.strip_suffix('>')) {
@@ -573,7 +604,7 @@ impl Property for C13 {
         // cells are atomic: only the enumerated ones are in the domain
         build(case).is_some()
             && case.get("expect_match").is_some()
-            && matches!(case["site"].as_str(), Some("property") | Some("item") | Some("def_same") | Some("def_diff"))
+            && matches!(case["site"].as_str(), Some("property") | Some("item") | Some("def_same") | Some("def_diff") | Some("mapkey"))
             && matches!(case["crate"].as_str(), Some("my-crate") | Some("plain"))
             && matches!(case["unknown"].as_str(), Some("Generate") | Some("Allow") | Some("Deny"))
             && (case["rename"].is_null() || matches!(case["rename"].as_str(), Some("other") | Some("oth-er")))
